@@ -163,6 +163,7 @@ struct Agg {
     sigs_all: HashSet<u64>,
     samples: Vec<(usize, Value)>,
     det_checked: u64,
+    digest: u64,
     det_mismatch: Vec<usize>,
     failures: Vec<(usize, String, String, Vec<u32>)>,
 }
@@ -199,6 +200,7 @@ pub struct Options {
     pub workers: usize,
     pub runs_override: Option<u64>,
     pub write_evidence: bool,
+    pub digest: bool,
 }
 
 /// Returns the process exit code.
@@ -233,6 +235,7 @@ pub fn run_batch(prop: &dyn Prop, opt: &Options) -> i32 {
                     let want_sample = i < 2 || i == n_sys || i == n_sys + 1 || i + 1 == n_jobs;
                     let out = run_one(prop, tape_for(&jobs[i], opt.seed, id), false, want_sample);
                     local.evals += 1;
+                    local.digest = local.digest.wrapping_add(mix(mix(i as u64, out.hash), out.fail.is_some() as u64));
                     local.steps += out.steps;
                     local.env_events += out.env_events;
                     local.bytes += out.bytes;
@@ -264,6 +267,7 @@ pub fn run_batch(prop: &dyn Prop, opt: &Options) -> i32 {
                 }
                 let mut a = agg.lock().unwrap();
                 a.evals += local.evals;
+                a.digest = a.digest.wrapping_add(local.digest);
                 a.steps += local.steps;
                 a.env_events += local.env_events;
                 a.bytes += local.bytes;
@@ -386,6 +390,9 @@ pub fn run_batch(prop: &dyn Prop, opt: &Options) -> i32 {
         let _ = std::fs::create_dir_all(&dir);
         std::fs::write(dir.join(format!("{id}.json")), serde_json::to_string_pretty(&ev).unwrap() + "\n")
             .expect("write evidence");
+    }
+    if opt.digest {
+        println!("DIGEST {:016x} evals={} exit={}", a.digest, a.evals, exit);
     }
     println!(
         "{id} {}: {} executions ({} systematic + {} seeded), {} distinct non-trivial schedule signatures, {} determinism re-runs, {:.1}s, exit {}",
